@@ -1023,6 +1023,79 @@ func assertionBacked(P *core.Program, fn *ssa.Function, ta *ssa.TypeAssert) (boo
 			}, "upload cache")
 		}
 	}
+	// sync.Pool: pool.Get().(*T) — every Put into that pool and the pool's New function yield a *T
+	if call, ok := src.(*ssa.Call); ok && core.Call(call).MethodOn("sync", "Pool", "Get") && len(call.Call.Args) == 1 {
+		poolOf := func(recv ssa.Value) ssa.Value {
+			recv = core.Resolve(recv)
+			if g, ok := recv.(*ssa.Global); ok {
+				return g
+			}
+			if fa, ok := recv.(*ssa.FieldAddr); ok {
+				return fa // (type, field) identity is decided below by position of the field
+			}
+			return nil
+		}
+		samePool := func(a, b ssa.Value) bool {
+			if a == nil || b == nil {
+				return false
+			}
+			if ga, ok := a.(*ssa.Global); ok {
+				return ga == b
+			}
+			fa, ok1 := a.(*ssa.FieldAddr)
+			fb, ok2 := b.(*ssa.FieldAddr)
+			return ok1 && ok2 && fa.Field == fb.Field && types.Identical(fa.X.Type(), fb.X.Type())
+		}
+		pool := poolOf(call.Call.Args[0])
+		if pool == nil {
+			return false, "sync.Pool whose identity cannot be established"
+		}
+		hasNew := false
+		for _, f := range P.RepoFuncs() {
+			if core.PkgPathOf(f) != pkg {
+				continue
+			}
+			for _, b := range f.Blocks {
+				for _, in := range b.Instrs {
+					// the New function of the pool (composite literal in the package initialiser or a constructor)
+					if st, ok := in.(*ssa.Store); ok {
+						if fa, ok := st.Addr.(*ssa.FieldAddr); ok {
+							if _, fname, _ := core.FieldName(fa); fname == "New" && core.TypeIs(fa.X.Type(), "sync", "Pool") && samePool(poolOf(fa.X), pool) {
+								nf := closureOf(st.Val)
+								if nf == nil {
+									return false, "the pool's New function cannot be resolved"
+								}
+								hasNew = true
+								for _, r := range returnsIn(nf) {
+									for _, rv := range returnValues(r.Results[0]) {
+										m2, ok := core.Strip(rv).(*ssa.MakeInterface)
+										if (!ok || !types.Identical(m2.X.Type(), want)) && !types.Identical(core.Strip(rv).Type(), want) {
+											return false, fmt.Sprintf("the pool's New function returns a value that is not a %s (%s)", want, P.Pos(r.Pos()))
+										}
+									}
+								}
+							}
+						}
+					}
+					ci := core.Call(in)
+					if ci == nil || !ci.MethodOn("sync", "Pool", "Put") || len(ci.Common.Args) != 2 {
+						continue
+					}
+					if !samePool(poolOf(ci.Common.Args[0]), pool) {
+						continue
+					}
+					mi, ok := ci.Common.Args[1].(*ssa.MakeInterface)
+					if (!ok || !types.Identical(mi.X.Type(), want)) && !types.Identical(core.Strip(ci.Common.Args[1]).Type(), want) {
+						return false, fmt.Sprintf("a value that is not a %s is put into the pool at %s", want, P.Pos(in.Pos()))
+					}
+				}
+			}
+		}
+		if !hasNew {
+			return false, "the pool has no New function: Get returns nil when the pool is empty and the assertion panics"
+		}
+		return true, "every Put into the pool and its New function yield that type"
+	}
 	// btree item: callback parameter, Get result, or Less argument
 	isItem := core.TypeIs(ta.X.Type(), pkgBtree, "Item")
 	if isItem {
